@@ -31,3 +31,11 @@ Proof.
   intros cfg d f out t rest H. pose proof (decode_frame_sound _ _ _ _ _ _ H) as S. tauto.
 Qed.
 Print Assumptions C09_size_and_checksum_enforced.
+
+(* the content checksum does not depend on how the content is cut into update calls: reset / update* / digest of the
+   streaming interface (block by block in the streaming decoder and compressor) computes the one-shot XXH64 of the concatenation *)
+From ZV.Codec Require Import XXH64Proofs.
+Theorem C09_checksum_is_chunking_independent : forall seed chunks,
+  xdigest (fold_left xupdate chunks (xreset seed)) = xxh64 (concat chunks) seed.
+Proof. exact xxh64_streaming. Qed.
+Print Assumptions C09_checksum_is_chunking_independent.
